@@ -7,6 +7,7 @@ use crate::world::*;
 
 pub fn run(rep: &mut Rep) {
     super::c09::shared_identifiers(rep, 8_800_000, "C07");
+    super::c09::repeated_identifiers(rep, 8_900_000, "C07");
     let mut inbound = Vec::new();
     for sub in [SubSel::Op(0), SubSel::Op(1), SubSel::Never, SubSel::Absent, SubSel::Both, SubSel::Repeat] {
         inbound.push((0u8, 0u16, false, sub));
